@@ -116,6 +116,12 @@ def _run(prop, tier, seed, n_hist, budget, batch, workers, evidence_path, t0, ev
                            "cap": cap, "minimise_s": 45 if tier == "quick" else 120})
     if os.environ.get("VERIF_NO_SWEEPS"):
         sweep_jobs = []
+    # every job stops taking new work at the soft deadline (a slow or busy machine explores less, it does not run longer)
+    hard = t0 + budget * (2.5 if tier == "quick" else 1.15)
+    for j in jobs:
+        j["deadline"] = hard
+    for j in sweep_jobs:
+        j["deadline"] = hard
     stats = Stats()
     sweeps = []
     runs, violations, errors, samples, schedules, distinct = [], [], [], [], {}, {}
@@ -149,6 +155,8 @@ def _run(prop, tier, seed, n_hist, budget, batch, workers, evidence_path, t0, ev
                 for d in r["distinct"]:
                     distinct[d] = 1
                 stats.merge(r["stats"])
+                if r.get("cut_by_deadline"):
+                    stopped_early = True
             sites = {(v["verdict"]["class"], json.dumps(v["verdict"]["site"], sort_keys=True)) for v in violations}
             if pending and (time.time() > deadline or len(sites) >= 4 or len(errors) > 20):
                 stopped_early = True
